@@ -138,6 +138,9 @@ def gen_case(rng, ttys):
         for i in range(nthreads):
             case["threads"].append(dict(tid=base + i * 3, comm=_s(gen_comm(rng)), utime=gen_mag(rng),
                                         stime=gen_mag(rng)))
+        if nthreads > 2 and rng.random() < 0.25:
+            # a thread that exits between the listing of task/ and the opening of its record (never the first, rarely the last)
+            case["threads"][rng.randrange(1, nthreads - 1) if rng.random() < 0.8 else nthreads - 1]["gone"] = True
     return case
 
 
@@ -204,6 +207,9 @@ def run_case(case, acc):
     p.stat_nfields = case["nfields"]
     if case["threads"]:
         p.threads = [Thread(th["tid"], _b(th["comm"]), th["utime"], th["stime"], case["state"]) for th in case["threads"]]
+        for thobj, th in zip(p.threads, case["threads"]):
+            if th.get("gone"):
+                thobj.gone = True
         # main thread carries the process-wide comm in task/<pid>/stat
         p.threads[0].comm = comm
     if harness.chash(case)[-1] in "01":
@@ -242,6 +248,19 @@ def run_case(case, acc):
                 return "status_regex_matches_Name_line"
         return None
 
+    moved = harness.chash(case)[-2] in "0123"
+    if moved:
+        # psutil.PROCFS_PATH is re-pointed after the object was made: the object belongs to the procfs it was created on
+        # (another tree with another process under the same pid is what PROCFS_PATH names from now on)
+        tb = ProcTable(btime=1_700_000_000)
+        tb.spawn(1, 1, ppid=0, comm=b"init")
+        # (same pid and start time, so the identity re-check of ppid() - which looks at the *current* PROCFS_PATH - is satisfied;
+        # every other fact differs)
+        pb = tb.spawn(case["pid"], case["start"], ppid=1 if case["ppid"] != 1 else 2, comm=b"somebody else")
+        pb.uids, pb.gids, pb.vctx, pb.nvctx, pb.state = (9, 9, 9, 9), (8, 8, 8, 8), 1, 2, "Z" if case["state"] != "Z" else "S"
+        pb.threads = [Thread(case["pid"], b"somebody else", 1, 1, "S")] + [Thread(999000 + k, b"x", 1, 1, "S") for k in range(3)]
+        vk.mount("/vprocB", tb)
+        acc.count("cases_with_procfs_path_moved_after_construction")
     with vk:
         try:
             pr = ps.Process(case["pid"])
@@ -249,6 +268,8 @@ def run_case(case, acc):
             viols.append(("construct_exception", f"Process() raised {e!r} comm={comm!r}"))
             acc.case(case, nontrivial(case), viols)
             return
+        if moved:
+            ps.PROCFS_PATH = "/vprocB"
         checks = [
             ("name", lambda: pr.name(), os.fsdecode(comm), None),
             ("ppid", lambda: pr.ppid(), case["ppid"], None),
@@ -315,7 +336,9 @@ def run_case(case, acc):
             viols.append((f"threads_exception:{type(e).__name__}", f"threads raised {e!r} comm={comm!r}"))
         else:
             ths = case["threads"] or [dict(tid=case["pid"], comm=case["comm"], utime=case["utime"], stime=case["stime"])]
-            want = {th["tid"]: (float(th["utime"]) / clk, float(th["stime"]) / clk) for th in ths}
+            want = {th["tid"]: (float(th["utime"]) / clk, float(th["stime"]) / clk) for th in ths if not th.get("gone")}
+            if any(th.get("gone") for th in ths):
+                acc.count("thread_lists_with_a_vanished_thread")
             gotd = {}
             dup = False
             for row in got:
@@ -326,9 +349,14 @@ def run_case(case, acc):
             if dup or gotd != want:
                 names = [comm] + [_b(th["comm"]) for th in ths[1:]] if case["threads"] else [comm]
                 feature = "rparen_in_thread_name" if any(b")" in n for n in names) else "other"
+                if any(th.get("gone") for th in ths):
+                    feature = "thread_vanished_after_listing"
                 viols.append((f"threads_wrong:{feature}", f"threads: got {gotd!r} want {want!r} names={names!r}"))
     if victim is not None:
         tmap_fn.cache_clear()          # the next case builds the full map again
+    if moved:
+        ps.PROCFS_PATH = "/vproc"
+        viols = [(m + ":procfs_path_moved_after_construction", d) for m, d in viols]
     acc.case(case, nontrivial(case), viols)
 
 
